@@ -6,7 +6,8 @@ package main
 // for the emitted ledger: the user's journal itself opens (early, late, or opens and closes)
 // the Income:... account that Valuate posts to; accounts below Equity:Valuation: (the prefix
 // Transcode tests); an account that is closed and opened again; V itself held; V with digits
-// or non-ASCII letters (stripNonAlphanum); V unknown to the journal; no -v at all.
+// or non-ASCII letters (stripNonAlphanum); V unknown to the journal; no -v at all; descriptions
+// that contain newlines.
 
 import (
 	"fmt"
@@ -159,6 +160,23 @@ func genC16(out *caseWriter, seed uint64, n int, args []string) error {
 			j = append(j, Dir{Kind: 'C', Date: dateStr(lo.AddDate(0, 0, d2)), Acc: a})
 			j = append(j, Dir{Kind: 'O', Date: dateStr(lo.AddDate(0, 0, d3)), Acc: a})
 			j = append(j, Dir{Kind: 'T', Date: dateStr(lo.AddDate(0, 0, d4)), Desc: "again", Bookings: []Booking{{other, a, "12.5", pick(r, cs)}}})
+		}
+		// descriptions that span lines: knut's parser reads a description up to the next double
+		// quote, newlines included, and writeTrx prints it as it is (a multi-line beancount string);
+		// the continuation lines imitate a blank line, a posting, a directive, a transaction head.
+		// (own random stream: the other choices of the case stay what they were)
+		if rd := newRng(seed, "C16desc", i); rd.chance(12) {
+			tails := []string{"\nmore", "\n", "\n\nafter a blank line", "\n  Assets:Cash 5 CHF", "\n2020-01-01 open Assets:Zzz",
+				"\n2020-01-01 * x", "\n  ", " \n\n"}
+			for k := range j {
+				if j[k].Kind == 'T' && rd.chance(30) {
+					if rd.chance(15) {
+						j[k].Desc = "\n" + j[k].Desc
+					} else {
+						j[k].Desc += pick(rd, tails)
+					}
+				}
+			}
 		}
 		r.shuffle(len(j), func(a, b int) { j[a], j[b] = j[b], j[a] })
 		val := "CHF"
